@@ -37,6 +37,17 @@ structure Row where
   v : Option Int
 deriving DecidableEq, Repr, Inhabited
 
+/-- field types (`influx.Field_Type_*`). -/
+inductive ColType where
+  | int | float | bool | string
+deriving DecidableEq, Repr, Inhabited
+
+/-- `FirstLastReader.unmarshalPreAgg`: only integer and float columns have a stored minimum /
+maximum the first / last shortcut can look at (`default: return nil, false`). -/
+def ColType.hasExtremeShortcut : ColType → Bool
+  | .int | .float => true
+  | .bool | .string => false
+
 /-- `record.ColMeta`. `min`/`max` are (value, time); `first`/`last` are (time, value). -/
 structure Stats where
   count : Nat := 0
@@ -82,27 +93,37 @@ def Stats.single (r : Row) : Stats :=
 /-- statistics of rows in scan order (`addValues`, the reducers, the row scans of the readers). -/
 def buildStats (rows : List Row) : Stats := rows.foldl (fun s r => s.seq (Stats.single r)) {}
 
+/-- a descending scan (`ORDER BY time DESC`): the rows arrive newest first and the scanning code
+is the same; after the repairs b8a54da / aae5dd9 the first and last value are exchanged at the end
+(`readMemTableMetaRecord`, the exchanged reducers of `series_call_processor`). -/
+def buildStatsDesc (rowsAsc : List Row) : Stats :=
+  let s := buildStats rowsAsc.reverse
+  { s with first := s.last, last := s.first }
+
 /-! ### combination of records of different containers: `immutable.AggregateData` -/
 
 /-- minMeta: base replaces new iff `new.v > base.v || (new.v == base.v && new.t > base.t)`. -/
 def pickMin (n b : Int × Int) : Int × Int := if b.1 < n.1 ∨ (b.1 = n.1 ∧ b.2 < n.2) then b else n
 /-- maxMeta: `new.v < base.v || (new.v == base.v && new.t > base.t)`. -/
 def pickMax (n b : Int × Int) : Int × Int := if n.1 < b.1 ∨ (b.1 = n.1 ∧ b.2 < n.2) then b else n
-/-- firstMeta: `new.t > base.t`, or equal times and `compareMin(new, base)` (new.v < base.v). -/
-def pickFirst (n b : Int × Int) : Int × Int := if b.1 < n.1 ∨ (b.1 = n.1 ∧ n.2 < b.2) then b else n
+/-- firstMeta: `new.t > base.t`, or equal times and `firstTieTakesBase(new, base)`: the larger
+value wins (`compareMin(new, base)`: new.v < base.v), for a boolean column the smaller one
+(`compareMin(base, new)`, the rule of `BooleanFirstMerge` in the executor; repair 31cbbdb). -/
+def pickFirst (ty : ColType) (n b : Int × Int) : Int × Int :=
+  if b.1 < n.1 ∨ (b.1 = n.1 ∧ (if ty = .bool then b.2 < n.2 else n.2 < b.2)) then b else n
 /-- lastMeta: `new.t < base.t`, or equal times and `compareMin(new, base)`. -/
 def pickLast (n b : Int × Int) : Int × Int := if n.1 < b.1 ∨ (b.1 = n.1 ∧ n.2 < b.2) then b else n
 
-/-- ⊕ : `AggregateData(new := a, base := b)`. -/
-def Stats.merge (a b : Stats) : Stats where
+/-- ⊕ : `AggregateData(new := a, base := b)` for a column of type `ty`. -/
+def Stats.merge (ty : ColType) (a b : Stats) : Stats where
   count := a.count + b.count
   sum := a.sum + b.sum
   min := optComb pickMin a.min b.min
   max := optComb pickMax a.max b.max
-  first := optComb pickFirst a.first b.first
+  first := optComb (pickFirst ty) a.first b.first
   last := optComb pickLast a.last b.last
 
-def mergeAll (l : List Stats) : Stats := l.foldl Stats.merge {}
+def mergeAll (ty : ColType) (l : List Stats) : Stats := l.foldl (Stats.merge ty) {}
 
 /-! ### one chunk (one series in one file): segments of rows, ascending in time -/
 
@@ -178,11 +199,11 @@ def segLast (storedMax : Option (Int × Int)) (lo hi : Int) (seg : Segment) : Op
       | some (v, t) => if decide (b ≤ hi) && decide (t = b) then some (b, v) else fromData
       | none => fromData
 
-def chunkFirst (lo hi : Int) (c : Chunk) : Option (Int × Int) :=
-  c.findSome? (segFirst (storedStats c).min lo hi)
+def chunkFirst (ty : ColType) (lo hi : Int) (c : Chunk) : Option (Int × Int) :=
+  c.findSome? (segFirst (if ty.hasExtremeShortcut then (storedStats c).min else none) lo hi)
 
-def chunkLast (lo hi : Int) (c : Chunk) : Option (Int × Int) :=
-  c.reverse.findSome? (segLast (storedStats c).max lo hi)
+def chunkLast (ty : ColType) (lo hi : Int) (c : Chunk) : Option (Int × Int) :=
+  c.reverse.findSome? (segLast (if ty.hasExtremeShortcut then (storedStats c).max else none) lo hi)
 
 /-- count, sum, min, max of `readSegmentMetaRecord` (`readSumCount`, `readMinMax`): the stored
 record when `allRowsInRange`, the scan of the overlapping segments otherwise. -/
@@ -192,19 +213,20 @@ def chunkBody (lo hi : Int) (c : Chunk) : Stats :=
   | none => {}
 
 /-- `readSegmentMetaRecord`: the record one chunk contributes for the range. -/
-def chunkStats (lo hi : Int) (c : Chunk) : Stats :=
-  { chunkBody lo hi c with first := chunkFirst lo hi c, last := chunkLast lo hi c }
+def chunkStats (ty : ColType) (lo hi : Int) (c : Chunk) : Stats :=
+  { chunkBody lo hi c with first := chunkFirst ty lo hi c, last := chunkLast ty lo hi c }
 
 /-! ### one series: memtable rows and chunks -/
 
 /-- the containers of one series and one column. -/
 structure SeriesData where
+  ty : ColType := .int  -- the type of the column
   mem : List Row        -- rows of the memory tables, ascending in time
   chunks : List Chunk   -- one per file that holds the series, in precedence order (newest first)
 
 /-- the un-hinted answer (statistics path): memtable rows in range, ⊕ every chunk's record. -/
 def aggViaStats (lo hi : Int) (d : SeriesData) : Stats :=
-  (d.chunks.map (chunkStats lo hi)).foldl Stats.merge (buildStats (d.mem.filter (inRange lo hi)))
+  (d.chunks.map (chunkStats d.ty lo hi)).foldl (Stats.merge d.ty) (buildStats (d.mem.filter (inRange lo hi)))
 
 /-- insert a cell into a time-sorted row list; an existing non-null cell wins (it comes from a
 container of higher precedence), a null cell is filled. -/
@@ -231,6 +253,10 @@ field filter nor a time bucket and `selected` is not looked at), otherwise the r
 and bucket. -/
 def answer (q : QueryShape) (lo hi : Int) (d : SeriesData) (selected : List Row) : Stats :=
   if matchPreAgg q then aggViaStats lo hi d else buildStats selected
+
+/-- `GROUP BY time(w)`: start of the bucket that holds absolute time `t` (`t - t mod w` with
+the non-negative remainder: buckets are aligned to the epoch). -/
+def bucketStart (w t : Int) : Int := t - t % w
 
 /-- mean = sum / count as an exact fraction (numerator, denominator); none when there is no value. -/
 def Stats.mean (s : Stats) : Option (Int × Nat) := if s.count = 0 then none else some (s.sum, s.count)
